@@ -24,6 +24,7 @@
 #include <tbox/base/defines.h>
 #include <tbox/base/log.h>
 #include <tbox/base/scope_exit.hpp>
+#include <tbox/base/verif_hook.h>
 
 #include "misc.h"
 #include "fd_event.h"
@@ -84,6 +85,7 @@ void SignalHandlerFunc(int signo)
     for (int fd : this_signal_ctx.write_fds) {
         auto wsize = write(fd, &signo, sizeof(signo));
         (void)wsize;    //! 消除编译警告
+        CPP_TBOX_VERIF_POINT("event.signal.written", signo, fd);
     }
 }
 
